@@ -6,7 +6,7 @@ CONFIG = {
         "files": ["ledger/zz_verif_c12c13_common_test.go", "ledger/zz_verif_c13_test.go"],
         "util": [("ledger", "ledger")],
         "env": {"quick": {"VERIF_C13_HIST": 30, "VERIF_C13_ROUNDS": 36},
-                "thorough": {"VERIF_C13_HIST": 400, "VERIF_C13_ROUNDS": 70}},
+                "thorough": {"VERIF_C13_HIST": 300, "VERIF_C13_ROUNDS": 70}},
         "timeout": {"quick": 900, "thorough": 3000},
         "search_tier": "quick",
     }],
